@@ -110,6 +110,37 @@ def is_channel(mm):
         return True
 
 
+def is_channel_known_medium(mm):
+    """Cases A and C: channel measurement with one of the known media
+
+    If "emodulus medium" is "other" (or anything else that is not a known
+    medium), the Young's modulus cannot be computed from a temperature.
+    """
+    medium = mm.config["calculation"].get("emodulus medium", "other")
+    valid = (is_channel(mm)
+             and isinstance(medium, str)
+             and medium.lower() in features.emodulus.viscosity.KNOWN_MEDIA)
+    if valid:
+        # The "emodulus viscosity" key is not a required key, but it
+        # influences the outcome (a ValueError is raised if it is set).
+        # Return a string (used for hashing the cached feature data).
+        viscosity = mm.config["calculation"].get("emodulus viscosity", None)
+        return f"known medium; viscosity: {viscosity}"
+    else:
+        return False
+
+
+def is_channel_other_medium(mm):
+    """Case B: channel measurement with a user-defined viscosity
+
+    The viscosity is only used if "emodulus medium" is not set or "other".
+    """
+    medium = mm.config["calculation"].get("emodulus medium", "other")
+    return (is_channel(mm)
+            and isinstance(medium, str)
+            and medium.lower() == "other")
+
+
 def register():
     # Please note that registering these things is a delicate business,
     # because the priority has to be chosen carefully.
@@ -131,7 +162,7 @@ def register():
                                      ["imaging", ["pixel size"]],
                                      ["setup", ["flow rate", "channel width"]]
                                      ],
-                         req_func=is_channel,
+                         req_func=is_channel_known_medium,
                          priority=4 + pr)
         AncillaryFeature(feature_name="emodulus",
                          data="case A",
@@ -143,7 +174,7 @@ def register():
                                      ["imaging", ["pixel size"]],
                                      ["setup", ["flow rate", "channel width"]]
                                      ],
-                         req_func=is_channel,
+                         req_func=is_channel_known_medium,
                          priority=0 + pr)
 
     AncillaryFeature(feature_name="emodulus",
@@ -156,5 +187,5 @@ def register():
                                  ["imaging", ["pixel size"]],
                                  ["setup", ["flow rate", "channel width"]]
                                  ],
-                     req_func=is_channel,
+                     req_func=is_channel_other_medium,
                      priority=2)
